@@ -56,6 +56,10 @@ type failingIdentResolver struct {
 func (f *failingIdentResolver) ResolveIdent(file *ast.File, parent ast.Node, parentField string, id *ast.Ident) (string, error) {
 	f.calls++
 	if f.calls == f.failAt {
+		if f.failAt%2 == 0 {
+			// the failure is (also) the library's own "package not found" sentinel
+			return "", fmt.Errorf("ident resolver call %d: %w (%w)", f.calls, errInjected, resolver.ErrPackageNotFound)
+		}
 		return "", fmt.Errorf("ident resolver call %d: %w", f.calls, errInjected)
 	}
 	return f.inner.ResolveIdent(file, parent, parentField, id)
@@ -72,6 +76,9 @@ func (f *failingPkgResolver) ResolvePackage(path string) (string, error) {
 	f.calls++
 	f.paths = append(f.paths, path)
 	if f.calls == f.failAt {
+		if f.failAt%2 == 0 {
+			return "", fmt.Errorf("package resolver call %d (%s): %w (%w)", f.calls, path, errInjected, resolver.ErrPackageNotFound)
+		}
 		return "", fmt.Errorf("package resolver call %d (%s): %w", f.calls, path, errInjected)
 	}
 	return f.inner.ResolvePackage(path)
